@@ -100,6 +100,12 @@ func (p Proof) Prove(key string) error {
 				continue
 			}
 
+			// NOTE at the first level only the node of the key can be hashed
+			// over the children; its pair can not stand in for it.
+			if i == 0 && parents[j].Key() != key {
+				continue
+			}
+
 			switch h, err := nodeHash(parents[j], nodes[bi], nodes[bi+1]); {
 			case err != nil:
 				return e.Wrap(err)
